@@ -29,6 +29,7 @@ import (
 	"github.com/ogen-go/ogen/gen/genfs"
 	"github.com/ogen-go/ogen/location"
 
+	"verif/internal/grammar"
 	"verif/internal/regen"
 	"verif/internal/vf"
 )
@@ -37,7 +38,7 @@ type M = map[string]any
 
 type program struct {
 	ID    string
-	Group string // hostile, corpus, sweep, fixture, skipped
+	Group string // hostile, corpus, sweep, fixture, skipped, minimal
 	Spec  []byte
 	Opts  func() gen.Options
 	Attrs map[string]string
@@ -354,6 +355,43 @@ func programs(r *vf.Run) []program {
 						o.Generator.IgnoreNotImplemented = []string{"all"}
 						return o
 					}})
+			}
+		}
+	}
+	// ----- (F) one construct alone: which helper files are written (validators, defaults, ...)
+	// depends on whether ANY type of the document needs them, so a construct that is fine inside a rich
+	// document can break a document made of nothing else (a seeded change dropped the validators file
+	// when sum types were the only validated types)
+	{
+		schemas, _, comps := grammar.Schemas(r.Thorough())
+		extra := []M{
+			{"oneOf": []any{M{"type": "string", "minLength": 1}, M{"type": "array", "items": M{"type": "string"}}}},
+			{"anyOf": []any{M{"type": "number"}, M{"type": "boolean"}}},
+			{"type": "array", "items": M{"oneOf": []any{M{"type": "string", "pattern": "^a"}, M{"type": "integer"}}}},
+			{"type": "string", "format": "uuid"}, {"type": "string", "format": "date-time", "default": "2020-01-01T00:00:00Z"}, {"type": "string", "format": "ipv4"}, {"type": "string", "format": "uri"},
+			{"type": "string", "format": "byte"}, {"type": "string", "format": "duration"}, {"type": "integer", "format": "int64", "default": 5}, {"type": "number", "format": "float", "default": 1.5},
+			{"type": "object", "additionalProperties": true}, {"type": "object", "patternProperties": M{"^x": M{"type": "integer", "minimum": 0}}}, {},
+		}
+		schemas = append(schemas, extra...)
+		for i, sch := range schemas {
+			if !r.Thorough() && i%2 == 1 && i < len(schemas)-len(extra) {
+				continue
+			}
+			for _, where := range []string{"request", "response"} {
+				op := M{"operationId": "op", "responses": M{"204": M{"description": "ok"}}}
+				if where == "request" {
+					op["requestBody"] = M{"required": true, "content": M{"application/json": M{"schema": sch}}}
+				} else {
+					op["responses"] = M{"200": M{"description": "ok", "content": M{"application/json": M{"schema": sch}}}}
+				}
+				spec := M{"openapi": "3.0.3", "info": M{"title": "t", "version": "1"}, "paths": M{"/a": M{"post": op}}}
+				if b, _ := json.Marshal(sch); strings.Contains(string(b), "#/components/") {
+					spec["components"] = M{"schemas": comps}
+				}
+				data, _ := json.Marshal(spec)
+				sj, _ := json.Marshal(sch)
+				ps = append(ps, program{ID: fmt.Sprintf("m_%04d_%s", i, where), Group: "minimal", Spec: data, Opts: featureOpts([]string{"paths/server", "paths/client", "ogen/unimplemented"}, ""),
+					Attrs: map[string]string{"where": where, "schema": string(sj)}, Desc: M{"only_construct": json.RawMessage(sj), "as": where}})
 			}
 		}
 	}
